@@ -1,0 +1,60 @@
+//go:build verif
+
+package main
+
+// Contracts for the gvc verifier (/verif); compiled only with the build tag "verif".
+// Only the exit-status plumbing of the CLI is under contract (C16 is claimed partially, see /verif/DESIGN.md).
+
+//@ func main.exitErrOpts
+//@   ensures code [C16]: result != nil && isExitCoder(result) && exitCodeOf(result) == 1
+//@ func main.exitErrOpen
+//@   ensures code [C16]: result != nil && isExitCoder(result) && exitCodeOf(result) == 2
+//@ func main.exitErrOutput
+//@   ensures code [C16]: result != nil && isExitCoder(result) && exitCodeOf(result) == 3
+//@ func main.exitErrMkdir
+//@   ensures code [C16]: result != nil && isExitCoder(result) && exitCodeOf(result) == 4
+//@ func main.exitErrVerify
+//@   ensures code [C16]: result != nil && isExitCoder(result) && exitCodeOf(result) == 5
+
+//@ func main.notExistArgs
+//@   requires nn: c != nil
+//@   ensures stray [C16]: (result == nil) == (ctxNArg(c) == 0)
+
+//@ func main.isInputStdin
+//@   ensures stdin [C16]: result == (path == "" || path == "-")
+
+// libFailed: a call into the gtree library made by this process has returned an error; libCalls counts those calls.
+// The four one-line wrappers (output, outputWithValidation, mkdir, verify) only forward to the library; their
+// contracts publish the library's verdict in these ghost variables and are assumed.
+//@ ghost var libFailed bool
+//@ ghost var libCalls int
+//@ contract libWrapper
+//@   assumed
+//@   modifies libFailed, libCalls
+//@   ensures pub: libCalls == old(libCalls) + 1 && (result != nil ==> libFailed) && (result == nil ==> libFailed == old(libFailed)) && (old(libFailed) ==> libFailed)
+//@ applies libWrapper to main.output, main.outputWithValidation, main.mkdir, main.verify, main.outputContinuously
+
+// the option constructors of the library return function values; nothing about them is needed here
+//@ contract optionCtor
+//@   assumed
+//@   pure
+//@ applies optionCtor to gtree.WithMassive, gtree.WithEncodeJSON, gtree.WithEncodeYAML, gtree.WithEncodeTOML, gtree.WithTargetDir, gtree.WithFileExtensions, gtree.WithStrictVerify, gtree.WithDryRun
+
+//@ func main.optionOutput
+//@   requires nn: c != nil
+//@   ensures known [C16]: result1 == nil ==> ctxString(c, "format") == "json" || ctxString(c, "format") == "yaml" || ctxString(c, "format") == "toml" || ctxString(c, "format") == ""
+//@   ensures unknown [C16]: !(ctxString(c, "format") == "json" || ctxString(c, "format") == "yaml" || ctxString(c, "format") == "toml" || ctxString(c, "format") == "") ==> result1 != nil
+
+//@ contract actionStatus
+//@   requires nn: c != nil
+//@   modifies libFailed, libCalls, fsFailed
+//@   ensures coder [C16]: result != nil ==> isExitCoder(result) && exitCodeOf(result) != 0
+//@   ensures truthful [C16]: result == nil ==> libFailed == old(libFailed)
+//@   ensures once [C16]: libCalls <= old(libCalls) + 1
+//@ applies actionStatus to main.actionOutput, main.actionMkdir, main.actionVerify
+
+// main: when app.Run reports an error the process must not end with status 0. The normal return of main is
+// exit status 0, so reaching it requires that Run returned nil (os.Exit never returns).
+//@ func main.main
+//@   modifies exitStatus, runFailed, libFailed, libCalls, out, wfail
+//@   ensures status [C16]: !runFailed
